@@ -3,6 +3,7 @@ package main
 import (
 	"bytes"
 	"context"
+	"crypto/tls"
 	"encoding/base64"
 	"fmt"
 	"io"
@@ -277,6 +278,8 @@ func c20Opts(spec string, hits *[]string) []larking.ServerOption {
 		switch {
 		case o == "t":
 			opts = append(opts, larking.TLSCredsOption(nil))
+		case o == "T": // a TLS configuration: how the listener is wrapped, not what the handler serves
+			opts = append(opts, larking.TLSCredsOption(&tls.Config{MinVersion: tls.VersionTLS12}))
 		case o == "m":
 			opts = append(opts, larking.MuxHandleOption())
 		case o == "m0":
@@ -486,6 +489,7 @@ func c20Gen(o *out, r *rng, tier string) {
 		{c20H("/api"), c20M("/api", "/twirp")},
 		{c20H("/"), c20M("/api", "/twirp")},
 		{"t", c20H("/healthz"), "m", c20M("/pfx", "/api")},
+		{"T", c20H("/healthz"), "m", c20M("/pfx", "/api")}, {"T", c20M("/api/", "/twirp"), c20H("/metrics")}, {c20M("/api/"), "T"}, {"T"},
 	}
 	mountsOf := func(cfg []string) []string {
 		var ms []string
@@ -572,7 +576,7 @@ func c20Gen(o *out, r *rng, tier string) {
 		}
 		cfg = append(cfg, c20M(ms...))
 		if r.intn(10) == 0 { // the default mount: no MuxHandleOption, one without patterns, or an empty slice
-			cfg = [][]string{nil, {"m"}, {"m0"}, {"t"}, {"m", "t", "m"}}[r.intn(5)]
+			cfg = [][]string{nil, {"m"}, {"m0"}, {"t"}, {"m", "t", "m"}, {"T"}, {"T", "m"}}[r.intn(7)]
 			ms = []string{"/"}
 		}
 		all := append([]string(nil), ms...)
@@ -598,11 +602,14 @@ func c20Gen(o *out, r *rng, tier string) {
 		case 1:
 			cfg = append([]string{"m"}, cfg...)
 		case 2:
-			cfg = append(cfg, "t")
+			cfg = append(cfg, r.picks([]string{"t", "T", "T"}))
 		case 3:
 			if len(cfg) > 0 {
 				cfg = cfg[1:]
 			}
+		}
+		if r.intn(5) == 0 {
+			cfg = append([]string{"T"}, cfg...) // the same mounts and handlers on a server that will listen with TLS
 		}
 		pres := c20Prefixes(all, r)
 		for k := 0; k < 4; k++ {
